@@ -1439,7 +1439,7 @@ fn gen_part2(thorough: bool, seed: u64, out: &mut dyn FnMut(String)) {
     let mut huge = huge_shapes();
     huge.extend(vec![vec![65537], vec![3, 65537], vec![4, 181, 181], vec![2; 14]]);
     if thorough { huge.extend(vec![vec![140001], vec![7, 131, 151], vec![1, 66000, 2, 1]]); }
-    let hty = ["i64", "u8", "bool", "i8", "f64", "i32", "usize", "str"];
+    let hty = ["i64", "u8", "bool", "i8", "f64", "i32", "usize"];
     for (hi, s) in huge.iter().enumerate() {
         let (n, r) = (prod(s), s.len());
         let ty = hty[hi % hty.len()];
@@ -1447,7 +1447,7 @@ fn gen_part2(thorough: bool, seed: u64, out: &mut dyn FnMut(String)) {
         let mut g = G::new(0x406E + hi as u64, "i64"); g.big = true;
         g.push(format!("new|{}|0|{}|#{}", n, show_list(s), ty));
         g.push(format!("new|{}|0|{}|#{}", n + 1, show_list(s), ty));
-        for st in [format!("reshape|@0|{}", show_list(&rev)), "ravel|@0".to_string(), format!("reshape|@3|{}", show_list(s)), "flip|@0|none".to_string(), format!("flip|@0|{}", r - 1), "expand_dims|@0|0,-1".to_string(),
+        for st in [format!("reshape|@0|{}", show_list(&rev)), "ravel|@0".to_string(), format!("reshape|@3|{}", show_list(s)), "flip|@0|none".to_string(), "zeros_like|@0".to_string(), "expand_dims|@0|0,-1".to_string(),
                    "squeeze|@7|none".to_string(), "map|@0".to_string(), "roll|@0|3|none".to_string(), "repeat|@0|2|none".to_string(), "filter_e|@0|3|1".to_string(), "append|@0|@0|none".to_string(),
                    format!("reshape|@0|{}", n + 1), format!("reshape|@0|{},2", n / 2 + 1), format!("broadcast_to|@3|2,{}", n), "atleast|@0|6".to_string(), "count_nonzero|@0|none|none".to_string(),
                    "u.it_collect|@0".to_string(), "u.it_filter|@0|2|1".to_string(), "u.it_ref|@0".to_string(), "u.clone|@0".to_string(), "u.clone_from|@3|@0|direct".to_string(), "u.clone_from|@0|@3|direct".to_string(),
@@ -1457,10 +1457,21 @@ fn gen_part2(thorough: bool, seed: u64, out: &mut dyn FnMut(String)) {
         let ity = ["i64", "i32", "f64"][hi % 3];
         let mut g = G::new(0x406F + hi as u64, "i64"); g.big = true;
         g.push(format!("new|{}|0|{}|#{}", n, show_list(s), ity));
-        let mut sts = vec!["u.transpose|@0|none".to_string(), format!("u.sum|@0|{}", r as isize - 1), "u.max|@0|0".to_string(), "u.min|@0|none".to_string(), "u.cumsum|@0|-1".to_string(), "u.cumsum|@0|none".to_string(),
-            format!("u.sort|@0|-1|{}", if s[r - 1] > 400 { "s:heapsort" } else { "none" }), "u.sort|@0|none|s:mergesort".to_string(), format!("u.argsort|@0|0|{}", if s[0] > 400 { "s:stable" } else { "none" }), "u.concatenate|@0,0|none".to_string(), format!("u.array_split|@0|{}|0", s[0].min(7)), format!("u.array_split|@0|{}|{}", s[r - 1].min(70), r - 1)];
-        if r >= 2 { sts.extend(vec![format!("u.transpose|@0|{}", show_list(&(0..r as isize).map(|k| { let v = (k + 1) % r as isize; if k % 2 == 1 { v - r as isize } else { v } }).collect::<Vec<_>>())), "u.swapaxes|@0|0|-1".to_string(), "u.argmax|@0|0|none".to_string(), "u.argmin|@0|-1|true".to_string(), "u.count_nonzero|@0|1|false".to_string(),
-            "u.concatenate|@0,0,0|0".to_string(), format!("u.concatenate|@0,0|{}", r - 1), "u.delete|@0|1,0|0".to_string(), format!("u.delete|@0|0|{}", r - 1)]); }
+        // the crate's by-axis operations are quadratic in the number of lanes (some also in the lane length): by-axis calls only where
+        // both are moderate (cost, not correctness); whole-array calls on every huge shape
+        let kb = (0..r).max_by_key(|&k| s[k]).unwrap_or(0);
+        let (lanes, alen) = (n / s[kb], s[kb]);
+        let mut sts = vec!["u.transpose|@0|none".to_string(), "u.min|@0|none".to_string(), "u.sum|@0|none".to_string(), "u.cumsum|@0|none".to_string(), "u.sort|@0|none|s:mergesort".to_string(),
+            "u.concatenate|@0,0|none".to_string(), "u.concatenate|@0,0,0|none".to_string()];
+        if r >= 2 { sts.push(format!("u.transpose|@0|{}", show_list(&(0..r as isize).map(|k| { let v = (k + 1) % r as isize; if k % 2 == 1 { v - r as isize } else { v } }).collect::<Vec<_>>()))); sts.push("u.swapaxes|@0|0|-1".to_string()); }
+        if lanes <= 400 {
+            let heavy_kind = if alen > 400 { "s:heapsort" } else { "none" };
+            sts.extend(vec![format!("u.sum|@0|{kb}"), format!("u.max|@0|{}", kb as isize - r as isize), format!("u.cumsum|@0|{kb}"), format!("u.sort|@0|{kb}|{heavy_kind}"), format!("u.array_split|@0|{}|{kb}", alen.min(70)), format!("u.array_split|@0|7|{kb}")]);
+            if alen <= 400 && r >= 2 {
+                sts.extend(vec![format!("u.argsort|@0|{kb}|none"), format!("u.argmax|@0|{kb}|none"), format!("u.argmin|@0|{}|true", kb as isize - r as isize), format!("u.count_nonzero|@0|{kb}|false"),
+                    format!("u.concatenate|@0,0,0|{kb}"), format!("u.concatenate|@0,0|{}", (kb + 1) % r), format!("u.delete|@0|1,0|{kb}"), format!("u.delete|@0|0|{}", (kb + 1) % r)]);
+            }
+        }
         for st in sts { g.push(st); }
         emit_chain(&g, out);
     }
